@@ -596,7 +596,11 @@ func (ro *RedisOutput) parseAofReplayUnits(replayQuit usync.WaitCloser, reader *
 			continue
 		}
 
-		newArgv, reject := ro.outFilter.FilterCmdKey(sCmd, argv)
+		newArgv, reject := argv, false
+		if !touchesBisyncNamespace(bisyncAofCommand{Cmd: sCmd, Args: argv}) {
+			// bookkeeping commands are suppressed or skipped below, not by the key filter
+			newArgv, reject = ro.outFilter.FilterCmdKey(sCmd, argv)
+		}
 		if bypass || reject {
 			ro.filterCounterAdd(1)
 			prevOffset = endOffset
